@@ -18,8 +18,46 @@ pub fn run(rep: &Report) -> u64 {
     1000
 }
 
+/// `is_empty()` of a decoded protected header speaks about the parsed view, whatever bytes are
+/// retained.
+fn emptiness(ex: &Ex) {
+    let mut l = Local::default();
+    let forms: Vec<(Vec<u8>, bool)> = vec![
+        (vec![], true),
+        (vec![0xa0], true),
+        (vec![0xb8, 0x00], true),
+        (vec![0xb9, 0x00, 0x00], true),
+        (vec![0xbf, 0xff], true),
+        (vec![0xa1, 0x01, 0x26], false),
+        (vec![0xa1, 0x18, 0x63, 0xf6], false),
+        (vec![0xbf, 0x04, 0x41, 0x6b, 0xff], false),
+    ];
+    for (wire, empty) in forms {
+        let v = coset::cbor::value::Value::Bytes(wire.clone());
+        l.state(1);
+        l.impl_checked += 1;
+        match subject::catch(|| coset::ProtectedHeader::from_cbor_bstr(v).map(|p| (p.is_empty(), p.header.is_empty()))) {
+            Ok(Ok((pe, he))) => {
+                if pe != empty || he != empty {
+                    l.viol(Viol {
+                        key: format!("{}:is_empty-of-decoded-protected-header", ex.pid),
+                        space: "c02.emptiness".into(),
+                        case: format!("from_cbor_bstr(h'{}').is_empty()", hex(&wire)),
+                        direct: None,
+                        expected: format!("{}", empty),
+                        observed: format!("ProtectedHeader::is_empty = {}, Header::is_empty = {}", pe, he),
+                    });
+                }
+            }
+            o => l.viol(Viol { key: format!("{}:emptiness-decode-failed", ex.pid), space: "c02.emptiness".into(), case: hex(&wire), direct: None, expected: "Ok".into(), observed: format!("{:?}", o.map(|r| r.map_err(|e| format!("{:?}", e)))) }),
+        }
+    }
+    ex.rep.merge(l);
+}
+
 pub fn explore(ex: &Ex) {
     edited(ex);
+    emptiness(ex);
     let d = ex.pick(1usize, 1, 2);
     ex.bound("c02", "deviations_max", json!(d));
     let mut contents = gen::header_contents();
